@@ -32,6 +32,7 @@ PROPERTIES
   SubmittedSticky
   NoEarlyDiscard
   RetryCadence
+  BoundedLife
   RetryOnlyWhenDue
   InvalidObservationNoEffect
 CHECK_DEADLOCK FALSE
